@@ -71,7 +71,13 @@ Arguments consume_on_hold : simpl never.
 Definition calls_offline (s : pstate) : list pevent := if s_hOffline s then [EClose HOnline] else [].
 Definition calls_sna (s : pstate) : list pevent :=
   calls_offline s ++ (if s_hUnavail s then [EClose HAvail] else []).
-Definition calls_sa (s : pstate) : list pevent := EOpen HAvail :: calls_offline s ++ [EOpen HOnline].
+Definition calls_sa (s : pstate) : list pevent :=
+  EOpen HAvail :: (if aa s then [] else calls_offline s ++ [EOpen HOnline]).
+(* the source is gone: the whole teardown, or only the online pair on an alwaysAvailable path *)
+Definition calls_gone (s : pstate) : list pevent := if aa s then calls_offline s else calls_sna s.
+(* a source attaches (a refused publisher calls nothing) *)
+Definition calls_attach (ok : bool) (s : pstate) : list pevent :=
+  if aa s then (if ok then calls_offline s ++ [EOpen HOnline] else []) else calls_sa s.
 Definition calls_pub_stop (s : pstate) : list pevent := if s_hUnDemand s then [EClose HDemand] else [].
 Definition calls_demand (s : pstate) : list pevent :=
   if od_static (s_conf s) then []
@@ -99,10 +105,13 @@ Lemma hevs_set_online s : hev (snd (set_online s)) = calls_offline s ++ [EOpen H
 Proof.
   unfold set_online. rewrite !hev_bind, hevs_set_offline, hevs_hook_open, hevs_modify, app_nil_r. reflexivity.
 Qed.
+Lemma hevs_whenM c m s : hev (snd (whenM c m s)) = if c s then hev (snd (m s)) else [].
+Proof. unfold whenM. destruct (c s); reflexivity. Qed.
 Lemma hevs_set_available s : hev (snd (set_available s)) = calls_sa s.
 Proof.
-  unfold set_available. rewrite !hev_bind, hevs_modify, hevs_hook_open, hevs_modify, hevs_set_online.
-  cbn [snd emit]. unfold calls_sa, calls_offline. destruct s; cbn. destruct s_hOffline; reflexivity.
+  unfold set_available. rewrite !hev_bind, hevs_modify, hevs_hook_open, hevs_modify, hevs_whenM, hevs_set_online.
+  cbn [snd emit]. unfold calls_sa, calls_offline, not_aa, aa.
+  destruct s as [[? ? ? ? ? ? ? ? ? ? a] ? ? ? ? ? ? ? ? ? ? ? ? ? ? ? ? ? h ?]. cbn. destruct a, h; reflexivity.
 Qed.
 Lemma hevs_call_unavailable s : hev (snd (call_unavailable s)) = if s_hUnavail s then [EClose HAvail] else [].
 Proof. unfold call_unavailable. destruct (s_hUnavail s); [apply hevs_hook_close|reflexivity]. Qed.
@@ -113,16 +122,19 @@ Proof.
   destruct (set_offline_fields s) as (_ & A & _). destruct (fst (set_offline s)) eqn:E. cbn in *. rewrite A.
   rewrite hev_cons_other by reflexivity. cbn. rewrite app_nil_r. reflexivity.
 Qed.
-Lemma hevs_erp s : hev (snd (execute_remove_publisher s)) = calls_sna s.
-Proof. unfold execute_remove_publisher. rewrite hev_bind, hevs_sna, hevs_modify, app_nil_r. reflexivity. Qed.
+Lemma hevs_source_gone s : hev (snd (source_gone s)) = calls_gone s.
+Proof.
+  unfold source_gone, calls_gone. destruct (aa s); [|apply hevs_sna].
+  rewrite hev_bind, hevs_set_offline. unfold start_offline. rewrite hevs_modify. apply app_nil_r.
+Qed.
+Lemma hevs_erp s : hev (snd (execute_remove_publisher s)) = calls_gone s.
+Proof. unfold execute_remove_publisher. rewrite hev_bind, hevs_source_gone, hevs_modify, app_nil_r. reflexivity. Qed.
 Lemma hevs_handler_start s : hev (snd (handler_start s)) = [].
 Proof. unfold handler_start, panic. destruct (s_ssRunning s); reflexivity. Qed.
 Lemma hevs_handler_stop s : hev (snd (handler_stop s)) = [].
 Proof. unfold handler_stop, panic. destruct (s_ssRunning s); reflexivity. Qed.
 Lemma hevs_ss_start s : hev (snd (ss_start s)) = [].
 Proof. unfold ss_start. rewrite hev_bind, hevs_handler_start. reflexivity. Qed.
-Lemma hevs_whenM c m s : hev (snd (whenM c m s)) = if c s then hev (snd (m s)) else [].
-Proof. unfold whenM. destruct (c s); reflexivity. Qed.
 Lemma hevs_ss_stop s : hev (snd (ss_stop s)) = [].
 Proof. unfold ss_stop. rewrite !hev_bind, hevs_whenM, hevs_handler_stop. destruct (ods_eqb (s_ssState s) OdClosing); reflexivity. Qed.
 Lemma hevs_pub_start s : hev (snd (pub_start s)) = [EOpen HDemand].
@@ -157,26 +169,26 @@ Definition hook_calls (fx : bool) (s : pstate) (o : pop) : list pevent :=
   match o with
   | Describe _ | AddReader _ _ => match s_stream s with Some _ => [] | None => calls_demand s end
   | RemoveReader _ | ReloadConf => []
-  | AddPublisher _ _ =>
+  | AddPublisher _ _ ok =>
       if c_static (s_conf s) then [] else
       match s_source s with
       | Some _ => if negb (c_override (s_conf s)) then []
-                  else calls_sna s ++ calls_sa (fst (execute_remove_publisher s))
-      | None => calls_sa s
+                  else calls_gone s ++ calls_attach ok (fst (execute_remove_publisher s))
+      | None => calls_attach ok s
       end
   | RemovePublisher p =>
       match s_source s with
       | Some p0 =>
           if p0 =? p then
-            calls_sna s ++
+            calls_gone s ++
             (let s1 := fst (execute_remove_publisher s) in
              if fx && od_pub (s_conf s1) && negb (ods_eqb (s_pubState s1) OdInitial)
              then calls_pub_stop s1 else [])
           else []
       | None => []
       end
-  | StaticReady _ => if s_ssRunning s && negb (s_instReady s) then calls_sa s else []
-  | StaticNotReady => if s_ssRunning s && s_instReady s then calls_sna s else []
+  | StaticReady _ => if s_ssRunning s && negb (s_instReady s) then calls_attach true s else []
+  | StaticNotReady => if s_ssRunning s && s_instReady s then calls_gone s else []
   | TimerFire t =>
       if timer_armed t s then
         match t with
@@ -203,12 +215,31 @@ Proof.
   destruct (ods_eqb (s_ssState s) OdInitial); [apply hevs_ss_start|reflexivity].
 Qed.
 
-Lemma hevs_attach q p s : hev (snd (attach_publisher q p s)) = calls_sa s.
+Lemma aa_set_sub x s : aa (set_sub x s) = aa s. Proof. destruct s; reflexivity. Qed.
+Lemma aa_set_source x s : aa (set_source x s) = aa s. Proof. destruct s; reflexivity. Qed.
+Lemma offline_set_sub x s : calls_offline (set_sub x s) = calls_offline s. Proof. destruct s; reflexivity. Qed.
+Lemma offline_set_source x s : calls_offline (set_source x s) = calls_offline s. Proof. destruct s; reflexivity. Qed.
+
+Lemma hevs_attach_tail q p s :
+  hev (snd (attach_tail q p s)) = if aa s then calls_offline s ++ [EOpen HOnline] else [].
 Proof.
-  unfold attach_publisher. rewrite !hev_bind, hevs_set_available, hevs_modify, hevs_whenM, hev_consume.
-  cbn [snd]. rewrite hev_cons_other by reflexivity.
-  match goal with |- context [if ?c then _ else _] => destruct c end;
-    rewrite ?hev_bind, ?hevs_modify; cbn; rewrite ?app_nil_r; reflexivity.
+  unfold attach_tail. rewrite !hev_bind, !hevs_modify, !hevs_whenM, hev_consume. cbn [snd fst modify app].
+  rewrite hev_cons_other by reflexivity. rewrite aa_set_source, aa_set_sub, hevs_set_online, offline_set_source, offline_set_sub.
+  match goal with |- context [if od_pub ?c && ?d then _ else _] => destruct (od_pub c && d) end;
+    rewrite ?hev_bind, ?hevs_modify; cbn [app snd pub_schedule_close modify]; change (hev []) with (@nil pevent);
+    rewrite ?app_nil_r; reflexivity.
+Qed.
+
+Lemma hevs_attach q p ok s : hev (snd (attach_publisher q p ok s)) = calls_attach ok s.
+Proof.
+  unfold attach_publisher, calls_attach. rewrite hev_bind, hevs_whenM. unfold not_aa at 1. fold (aa s).
+  destruct (aa s) eqn:E; cbn [negb app].
+  - unfold whenM, not_aa. unfold aa in E. rewrite E. cbn [negb fst]. fold (aa s). unfold aa. rewrite E. cbn [andb].
+    destruct ok; cbn [negb]; [rewrite hevs_attach_tail; unfold aa; rewrite E; reflexivity|reflexivity].
+  - rewrite hevs_set_available.
+    assert (Ea : aa (fst (whenM not_aa set_available s)) = false).
+    { unfold aa in *. rewrite conf_when_sa. exact E. }
+    rewrite Ea. cbn [andb]. rewrite hevs_attach_tail, Ea. apply app_nil_r.
 Qed.
 
 Lemma hev_describe q s :
@@ -227,13 +258,13 @@ Proof.
   destruct (od_pub (s_conf s)); [apply hevs_demand_hold|reflexivity].
 Qed.
 
-Lemma hev_add_publisher q p s :
-  hev (snd (do_add_publisher q p s)) =
+Lemma hev_add_publisher q p ok s :
+  hev (snd (do_add_publisher q p ok s)) =
   if c_static (s_conf s) then [] else
   match s_source s with
   | Some _ => if negb (c_override (s_conf s)) then []
-              else calls_sna s ++ calls_sa (fst (execute_remove_publisher s))
-  | None => calls_sa s
+              else calls_gone s ++ calls_attach ok (fst (execute_remove_publisher s))
+  | None => calls_attach ok s
   end.
 Proof.
   unfold do_add_publisher. destruct (c_static (s_conf s)); [reflexivity|].
@@ -247,7 +278,7 @@ Lemma hev_remove_publisher fx p s :
   match s_source s with
   | Some p0 =>
       if p0 =? p then
-        calls_sna s ++
+        calls_gone s ++
         (let s1 := fst (execute_remove_publisher s) in
          if fx && od_pub (s_conf s1) && negb (ods_eqb (s_pubState s1) OdInitial)
          then calls_pub_stop s1 else [])
@@ -274,20 +305,33 @@ Proof.
 Qed.
 
 Lemma hev_static_ready q s :
-  hev (snd (do_static_ready q s)) = if s_ssRunning s && negb (s_instReady s) then calls_sa s else [].
+  hev (snd (do_static_ready q s)) = if s_ssRunning s && negb (s_instReady s) then calls_attach true s else [].
 Proof.
   unfold do_static_ready. destruct (s_ssRunning s && negb (s_instReady s)); [|reflexivity].
-  rewrite !hev_bind, hevs_set_available, hevs_whenM, hev_consume, hevs_modify. cbn [snd].
-  rewrite hev_cons_other by reflexivity.
-  match goal with |- context [if ?c then _ else _] => destruct c end;
-    rewrite ?hev_bind, ?hevs_modify; cbn; rewrite ?app_nil_r; reflexivity.
+  rewrite hev_bind, hevs_whenM. set (s1 := fst (whenM not_aa set_available s)).
+  assert (Et : hev (snd ((modify (set_sub SStatic);; whenM aa set_online;;
+                whenM (fun s0 => od_static (s_conf s0)) (modify (set_ssReadyT false);; ss_schedule_close);;
+                consume_on_hold;; modify (set_instReady true);;
+                (fun s0 => (s0, [EAnswer q (AStream (cur_stream s0))]))) s1))
+              = if aa s1 then calls_offline s1 ++ [EOpen HOnline] else []).
+  { rewrite !hev_bind, !hevs_modify, !hevs_whenM, hev_consume. cbn [snd fst modify app].
+    rewrite hev_cons_other by reflexivity. rewrite aa_set_sub, hevs_set_online, offline_set_sub.
+    match goal with |- context [if od_static ?c then _ else _] => destruct (od_static c) end;
+      rewrite ?hev_bind, ?hevs_modify; cbn [app snd ss_schedule_close modify]; change (hev []) with (@nil pevent);
+      rewrite ?app_nil_r; reflexivity. }
+  rewrite Et. unfold calls_attach, not_aa. fold (aa s).
+  destruct (aa s) eqn:E; cbn [negb app].
+  - unfold s1, whenM, not_aa. unfold aa in E. rewrite E. cbn [negb fst]. unfold aa. rewrite E. reflexivity.
+  - rewrite hevs_set_available.
+    assert (Ea : aa s1 = false) by (unfold s1, aa in *; rewrite conf_when_sa; exact E).
+    rewrite Ea. apply app_nil_r.
 Qed.
 
 Lemma hev_static_not_ready s :
-  hev (snd (do_static_not_ready s)) = if s_ssRunning s && s_instReady s then calls_sna s else [].
+  hev (snd (do_static_not_ready s)) = if s_ssRunning s && s_instReady s then calls_gone s else [].
 Proof.
   unfold do_static_not_ready. destruct (s_ssRunning s && s_instReady s); [|reflexivity].
-  rewrite !hev_bind, hevs_sna, hevs_modify, hevs_whenM.
+  rewrite !hev_bind, hevs_source_gone, hevs_modify, hevs_whenM.
   match goal with |- context [if ?c then _ else _] => destruct c end;
     rewrite ?hevs_ss_stop; cbn; rewrite ?app_nil_r; reflexivity.
 Qed.
@@ -372,7 +416,7 @@ Lemma open_set_rhold k x s : open_of k (set_rhold x s) = open_of k s.
 Proof. destruct s, k; reflexivity. Qed.
 Lemma open_bump k s : open_of k (bump_on_demand s) = open_of k s.
 Proof.
-  destruct s as [cf ? ? ? ? ? ? ? sst ? ? ? ? pst ? ? ? ? ?]. unfold bump_on_demand. cbn.
+  destruct s as [cf ? ? ? ? ? ? ? sst ? ? ? ? pst ? ? ? ? ? ?]. unfold bump_on_demand. cbn.
   destruct (od_static cf); [destruct sst, k; reflexivity|].
   destruct (od_pub cf); [destruct pst, k; reflexivity|reflexivity].
 Qed.
@@ -391,7 +435,7 @@ Proof.
   assert (E1 : open_of k s1 = open_of k s).
   { unfold s1, whenM. destruct (mem r (s_readers s)); [apply open_set_readers|reflexivity]. }
   rewrite <- E1. clearbody s1.
-  destruct s1 as [cf ? ? ? ? rd ? ? sst ? ? ? ? pst ? ? ? ? ?]. cbn.
+  destruct s1 as [cf ? ? ? ? rd ? ? sst ? ? ? ? pst ? ? ? ? ? ?]. cbn.
   destruct rd; [|reflexivity]. unfold whenM, ss_schedule_close, pub_schedule_close, modify. cbn.
   destruct (od_static cf); [destruct sst, k; reflexivity|].
   destruct (od_pub cf); [destruct pst, k; reflexivity|reflexivity].
@@ -404,7 +448,8 @@ Definition hooks_ok (fx : bool) (s : pstate) (o : pop) : Prop :=
 
 Ltac red_hk :=
   lazy beta iota zeta delta [fst snd app
-     hook_calls calls_offline calls_sna calls_sa calls_pub_stop calls_demand close_calls close_s3
+     hook_calls calls_offline calls_sna calls_sa calls_gone calls_attach calls_pub_stop calls_demand close_calls close_s3
+     source_gone start_offline aa not_aa pre_tail
      mon_run alt_mon cls_call hk_eqb open_of
      step_gen do_describe do_add_reader do_remove_publisher do_static_not_ready do_timer do_close
      clear_timers close_source close_demand close_stream execute_remove_publisher pre_attach pre_static_ready
@@ -413,11 +458,11 @@ Ltac red_hk :=
      bump_on_demand fail_on_hold whenM bindM modify emit ret timer_armed disarm cur_stream
      set_closed set_source set_stream set_nextgen set_readers set_dhold set_rhold set_ssState set_ssReadyT
      set_ssCloseT set_ssRunning set_instReady set_pubState set_pubReadyT set_pubCloseT set_hUnDemand
-     set_hUnavail set_hOffline
+     set_hUnavail set_hOffline set_sub
      s_conf s_closed s_source s_stream s_nextgen s_readers s_dhold s_rhold s_ssState s_ssReadyT s_ssCloseT
-     s_ssRunning s_instReady s_pubState s_pubReadyT s_pubCloseT s_hUnDemand s_hUnavail s_hOffline
+     s_ssRunning s_instReady s_pubState s_pubReadyT s_pubCloseT s_hUnDemand s_hUnavail s_hOffline s_sub
      PathSM.c_static PathSM.c_sod PathSM.c_override PathSM.c_maxr PathSM.c_hAvail PathSM.c_hUnavail
-     PathSM.c_hOnline PathSM.c_hOffline PathSM.c_hDemand PathSM.c_hUnDemand
+     PathSM.c_hOnline PathSM.c_hOffline PathSM.c_hDemand PathSM.c_hUnDemand PathSM.c_aa
      od_static od_pub ods_eqb andb orb negb is_some].
 
 Ltac hk_leaf k := destruct k; red_hk; try reflexivity.
@@ -465,22 +510,27 @@ Proof.
   enum H; cbv beta iota delta [step_gen do_add_reader s_closed s_stream]; rewrite ?open_arp; hk_leaf k.
 Qed.
 
-Lemma hk_add_publisher fx s q p : inv_b fx s = true -> hooks_ok fx s (AddPublisher q p).
+Definition pre_attached (p : Z) (ok : bool) (s : pstate) : pstate :=
+  if aa s && negb ok then s else fst (pre_attach p s).
+Lemma open_attached k p ok s : open_of k (attached p ok s) = open_of k (pre_attached p ok s).
+Proof. unfold attached, pre_attached. destruct (aa s && negb ok); [reflexivity|apply open_consume]. Qed.
+
+Lemma hk_add_publisher fx s q p ok : inv_b fx s = true -> hooks_ok fx s (AddPublisher q p ok).
 Proof.
   intros H k. rewrite mon_hev, hev_step.
-  assert (E : open_of k (fst (step_gen fx s (AddPublisher q p))) =
+  assert (E : open_of k (fst (step_gen fx s (AddPublisher q p ok))) =
               open_of k (if s_closed s then s else
                          if c_static (s_conf s) then s else
                          match s_source s with
                          | Some _ => if negb (c_override (s_conf s)) then s
-                                     else fst (pre_attach p (fst (execute_remove_publisher s)))
-                         | None => fst (pre_attach p s)
+                                     else pre_attached p ok (fst (execute_remove_publisher s))
+                         | None => pre_attached p ok s
                          end)).
   { unfold step_gen. destruct (s_closed s); [reflexivity|]. rewrite fst_add_publisher.
     destruct (c_static (s_conf s)); [reflexivity|]. destruct (s_source s).
-    - destruct (negb (c_override (s_conf s))); [reflexivity|apply open_consume].
-    - apply open_consume. }
-  rewrite E. clear E. start s. destruct cl; [destruct k; reflexivity|]. destruct c_ov.
+    - destruct (negb (c_override (s_conf s))); [reflexivity|apply open_attached].
+    - apply open_attached. }
+  rewrite E. clear E. unfold pre_attached. start s. destruct cl; [destruct k; reflexivity|]. destruct c_ov, ok.
   all: enum H; hk_leaf k.
 Qed.
 
